@@ -47,6 +47,7 @@ type (
 		Base    Term
 		Prefix  string
 		Pointee types.Type
+		Interior bool // points inside the object Base (a field), not at the object itself
 		// element pointer into a slice/array (contents are not tracked unless Elems known)
 		ElemOf *SliceV
 		Idx    Term
